@@ -434,6 +434,13 @@ func c01Alphabet(w *stdWorld, full bool) []dgCase {
 		out = append(out, dgCase{"200 bytes, valid leading 80", append(append([]byte(nil), valid...), bytes.Repeat([]byte{0xCD}, 120)...), ""})
 		out = append(out, dgCase{"81 bytes, valid leading 80 (replay)", append(append([]byte(nil), valid...), 0), ""})
 		out = append(out, dgCase{"80 bytes exact (replay)", valid, ""})
+		// every single-bit flip again now that the genuine report is stored: its signature bytes are on record,
+		// and a datagram that reuses them with other content must still be rejected
+		for bit := 0; bit < 640; bit++ {
+			m := append([]byte(nil), valid...)
+			m[bit/8] ^= 1 << (bit % 8)
+			out = append(out, dgCase{fmt.Sprintf("bitflip %d of the stored B report", bit), m, "bitflip-after-store"})
+		}
 		// the same variants once the genuine report is stored: a twin would now count as a second report
 		for _, v := range sigVariants(valid) {
 			out = append(out, dgCase{"stored B report re-sent with signature variant " + v.name, v.b, "signature-variant-after-store/" + v.name})
